@@ -717,7 +717,7 @@ fn main() {
             "codebook proposals and WAL rotation (1 GB) are outside the quantifier",
         ],
         parts: vec![
-            PropPart::new("crash", 25_000, 3_000_000, case_strategy, |c: &Case, ctx: &mut CaseCtx| run_case(c, ctx, false)).boxed(),
+            PropPart::new("crash", 25_000, 1_500_000, case_strategy, |c: &Case, ctx: &mut CaseCtx| run_case(c, ctx, false)).boxed(),
             PropPart::new("crash_allcuts", 2_500, 300_000, case_strategy, |c: &Case, ctx: &mut CaseCtx| run_case(c, ctx, true)).boxed(),
         ],
         children: vec![],
